@@ -47,6 +47,15 @@ Ltac field_eq :=
         | match goal with |- ?f ?a = ?f ?b => apply (f_equal f); field_eq end
         | (let i := fresh "i" in let j := fresh "j" in extensionality i; extensionality j; unfold fmul, fadd, fscal, fone, fzero; ring) ].
 Ltac open_pipe := unfold custom, centered, conv_centered, fraun.
+(* scalings (quadrature factors such as dx^2 that the code multiplies in and divides out again, wherever it writes them):
+   pull every scalar out through the linear operators, show that the collected scalar is 1, compare the rest *)
+Lemma fscal_eq (c : C) (X Y : fld) : c = RtoC 1 -> X = Y -> fscal c X = Y.
+Proof. intros -> ->. apply fscal_one. Qed.
+Ltac scal_out :=
+  repeat first [ rewrite fmul_scal_l | rewrite fmul_scal_r | rewrite Finv_scal | rewrite Sinv_scal | rewrite F_scal | rewrite S_scal | rewrite fscal_fscal ].
+Ltac scalar_one tac :=
+  repeat rewrite <- RtoC_mult; apply f_equal; field; tac.
+Ltac scaled_eq tac := scal_out; apply fscal_eq; [ scalar_one tac | field_eq ].
 
 (* ---- structure: traced = documented forward model (aperture applied ONCE) *)
 Lemma t_custom_ok u K A : t_custom F Finv S Sinv u K A = cust u K A.
@@ -69,14 +78,11 @@ Lemma n_band_limited_angular_spectrum_ok u H : n_band_limited_angular_spectrum F
 Proof. unfold n_band_limited_angular_spectrum; open_pipe. field_eq. Qed.
 Lemma n_transfer_function_fresnel_ok u H dx : dx <> 0 -> n_transfer_function_fresnel F Finv S Sinv u H dx = centered F Finv S Sinv u H.
 Proof.
-  intros Hd. unfold n_transfer_function_fresnel.
-  apply (centered_scaled F Finv S Sinv Finv_scal Sinv_scal).
-  apply pow_nonzero. unfold Rdiv. apply Rmult_integral_contrapositive_currified; [lra|]. apply Rinv_neq_0_compat. lra.
+  intros Hd. unfold n_transfer_function_fresnel; open_pipe. scaled_eq ltac:(repeat split; lra).
 Qed.
 Lemma n_impulse_response_fresnel_ok u h dx : dx <> 0 -> n_impulse_response_fresnel F Finv S Sinv u h dx = conv_centered F Finv S Sinv u h.
 Proof.
-  intros Hd. unfold n_impulse_response_fresnel.
-  apply (conv_centered_scaled F Finv S Sinv Finv_scal Sinv_scal). apply pow_nonzero. exact Hd.
+  intros Hd. unfold n_impulse_response_fresnel; open_pipe. scaled_eq ltac:(repeat split; lra).
 Qed.
 
 (* ---- C01 on the traced pipelines *)
@@ -146,9 +152,9 @@ Proof.
   - eapply conv_centered_linear; eauto.
 Qed.
 Lemma t_fraunhofer_ok u H dx : t_fraunhofer F S Sinv u H dx = fraun F S Sinv u (fscal (RtoC (dx ^ 2)) H).
-Proof. unfold t_fraunhofer. apply fraun_scaled. Qed.
+Proof. unfold t_fraunhofer; open_pipe. scal_out. field_eq. Qed.
 Lemma n_fraunhofer_ok u H dx : n_fraunhofer F S Sinv u H dx = fraun F S Sinv u (fscal (RtoC (dx ^ 2)) H).
-Proof. unfold n_fraunhofer. apply fraun_scaled. Qed.
+Proof. unfold n_fraunhofer; open_pipe. scal_out. field_eq. Qed.
 Theorem traced_fraunhofer_linear a b u v H dx :
   t_fraunhofer F S Sinv (fadd (fscal a u) (fscal b v)) H dx = fadd (fscal a (t_fraunhofer F S Sinv u H dx)) (fscal b (t_fraunhofer F S Sinv v H dx)) /\\
   n_fraunhofer F S Sinv (fadd (fscal a u) (fscal b v)) H dx = fadd (fscal a (n_fraunhofer F S Sinv u H dx)) (fscal b (n_fraunhofer F S Sinv v H dx)).
